@@ -25,8 +25,9 @@ Assumed dependency contracts (trusted base; the `dep:` names actually used are l
     len(k) <= N (obligation `pre`) = circular convolution  out[t] = SUM_{j < len(k)} k[j] * a[(t - j) mod N]
     (DFT convolution theorem, trusted lemma LA8; taps of the zero padding of k dropped).  For 0 <= t < N and
     0 <= j < len(k) <= N the index (t - j) mod N is  t-j if t >= j else t-j+N.
-  * lax.dynamic_slice(a, (s,), (m,)): requires m <= len(a); the start is CLAMPED into [0, len(a) - m], so
-    "s is in range" is an obligation (`bounds`), and the model uses the clamped start.
+  * lax.dynamic_slice(a, (s,), (m,)): requires m <= len(a); a negative start is first taken relative to the end
+    (s + len(a), once), then the start is CLAMPED into [0, len(a) - m] (checked natively), so "0 <= s and
+    s + m <= len(a)" is an obligation (`bounds`), and the model uses the wrapped-and-clamped start.
     lax.dynamic_update_slice(a, u, (s,)): same clamping (obligation `bounds`); TypeError unless a and u have
     the same dtype.
   * lax.fori_loop(lo, hi, body, init): carry = init; for i in range(lo, hi): carry = body(i, carry).  Handled by
@@ -187,6 +188,12 @@ class Arr(Value):
 
     def py_getitem(self, interp, idx):
         if isinstance(idx, slice):
+            if getattr(interp.theory, 'strict_slices', False) and concrete(idx.step) in (None, 1):
+                # opt-in (pack): the code under contract never relies on slice clamping, so in-range is an obligation
+                n = zi(self.length)
+                nrm = lambda v, d: d if v is None else z3.If(zi(v) < 0, zi(v) + n, zi(v))
+                lo, hi = nrm(idx.start, z3.IntVal(0)), nrm(idx.stop, n)
+                ob(interp, 'bounds', 'static-slice-within-array', simp(z3.And(0 <= lo, lo <= hi, hi <= n)))
             I = SSeq(self.length, lambda k: k, 'tuple')
             J = B.getitem(interp, I, idx)
             return self.reindex(J.length, J.get)
@@ -538,7 +545,8 @@ def install(T: Theory):
     def _clamped_start(interp, tag, start, m, n):
         s, m, n = zi(start), zi(m), zi(n)
         ob(interp, 'bounds', tag, z3.And(m <= n, s >= 0, s + m <= n))
-        return z3.If(s < 0, 0, z3.If(s > n - m, n - m, s))
+        w = z3.If(s < 0, s + n, s)                 # a negative start is taken relative to the end, once
+        return z3.If(w < 0, 0, z3.If(w > n - m, n - m, w))
 
     def _one(t):
         t = tuple(t) if isinstance(t, (tuple, list)) else None
